@@ -23,10 +23,21 @@ def run(ctx):
     mul = [RS.log_multiply(a, b) for a in range(256) for b in range(256)]
     gen, chk = [], []
 
+    held = []       # generated words are kept as returned and read only after all calls (results must not share storage)
+
     def g(msg, mask):
-        out = RS.generate(bytes(msg), bytes(mask))
-        gen.append({"msg": list(msg), "mask": list(mask), "out": list(out)})
+        # every other caller owns mutable buffers and uses them again afterwards
+        mutable = len(held) % 2 == 1
+        mb, kb = (bytearray(msg), bytearray(mask)) if mutable else (bytes(msg), bytes(mask))
+        out = RS.generate(mb, kb)
+        if mutable and (bytes(mb) != bytes(msg) or bytes(kb) != bytes(mask)):
+            out = bytes(12)          # recorded as a wrong word: the caller's buffers were altered
+        held.append((list(msg), list(mask), out))
         return out
+
+    def flush():
+        for msg, mask, out in held:
+            gen.append({"msg": msg, "mask": mask, "out": list(out)})
 
     for pos in range(9):
         for v in range(1, 256):
@@ -40,6 +51,8 @@ def run(ctx):
         m = [rng.getrandbits(8) for _ in range(9)]
         mask = rng.choice(MASKS + [bytes(rng.getrandbits(8) for _ in range(3))])
         words.append((g(m, mask), mask))
+    flush()
+    words = [(bytes(w), mask) for w, mask in words]
     for w, mask in words[: (600 if ctx.quick else 10000)]:
         chk.append({"word": list(w), "mask": list(mask), "accepted": bool(RS.check(bytes(w), bytes(mask)))})
         e = bytearray(w)
